@@ -158,6 +158,10 @@ class Engine(CallMixin):
             first = len(self.obligations)
             if out[0] in ("return", "normal"):
                 normal_paths += 1
+                if normal_paths == 1:
+                    # vacuity: the first normal path must be reachable (its path condition satisfiable)
+                    self.obligations.append(Obligation(c.key, "normal-exit-reachable" + getattr(self, "cur_variant", ""), "cover", st1.pc, None,
+                                                       fi.node.lineno, tuple(c.serves), st1.note))
                 self._check_normal_exit(c, fi, st1, out[1] if out[0] == "return" else None, binds, old_heap, env)
             elif out[0] == "raise":
                 self._check_raise_exit(c, fi, st1, out[1], binds, old_heap, env)
@@ -167,6 +171,11 @@ class Engine(CallMixin):
                 ob.ctx = init_ctx
         self.func_stats[c.key]["paths"] = n_paths
         self.func_stats[c.key]["normal_paths"] = normal_paths
+        if n_paths == 0:
+            raise Unsupported(f"{fi.key}{getattr(self, 'cur_variant', '')}: no path reaches the end of the body (everything after some "
+                              f"statement is unreachable under the contracts in force): the contract would hold vacuously")
+        if normal_paths == 0 and not getattr(c, "never_returns", False) and c.ensures is not None:
+            raise Unsupported(f"{fi.key}{getattr(self, 'cur_variant', '')}: no path returns normally, the ensures clauses would hold vacuously")
         self.paths += n_paths
 
     def _path_env(self, c: Contract, st: State, binds: dict, old_heap: dict, env0: Env) -> Env:
@@ -211,6 +220,8 @@ class Engine(CallMixin):
                 if lab.endswith(suf):
                     serves = tuple(props)
             self.oblige(st2, lab, "ensures", g, fi.node, serves)
+        self.check_list_cases(c, c.lists, env, st2, binds, result, fi.node, "")
+        self.check_linear(st2, result, fi.node, "")
         self._check_frame(c, fi, st2, binds, old_heap, c.modifies)
 
     def _check_raise_exit(self, c: Contract, fi: FuncInfo, st: State, exc: ExcVal, binds: dict, old_heap: dict,
@@ -242,9 +253,72 @@ class Engine(CallMixin):
                     if lab.endswith(suf):
                         serves = tuple(props)
                 self.oblige(st, f"on-raise.{lab}", "raises", g, fi.node, serves)
+            self.check_list_cases(c, c.lists_on_raise, env, st, binds, None, fi.node, "on-raise.")
             self._check_frame(c, fi, st, binds, old_heap, c.modifies, tag="on-raise.")
         else:
             self._check_frame(c, fi, st, binds, old_heap, [], tag="on-raise.")
+
+    def check_list_cases(self, c: Contract, fn: Any, env: Env, st: State, binds: dict, result: Any, node: Any, tag: str) -> None:
+        """the body leaves the row lists exactly as the contract's `lists` cases say (structural comparison: the same
+        row objects / opaque segments in the same order; `...` = any further rows; NEW = one new element)"""
+        from .contract import NEW
+        from .state import unwrap
+        if fn is None:
+            return
+        try:
+            cases = fn(env)
+        except ClauseError as ex:
+            self.oblige(st, f"{tag}lists-evaluable({ex})", "ensures", False, node)
+            return
+        self.oblige(st, f"{tag}lists.cases-exhaustive", "ensures", Or(*[k["when"] for k in cases]), node)
+
+        def same(a: Any, b: Any) -> bool:
+            b = unwrap(b)
+            if isinstance(a, Seg) or isinstance(b, Seg):
+                return isinstance(a, Seg) and isinstance(b, Seg) and a.const.eq(b.const)
+            return isinstance(a, Ref) and isinstance(b, Ref) and a == b
+
+        def match(actual: tuple, spec: list) -> bool:
+            if Ellipsis in spec:
+                i = spec.index(Ellipsis)
+                pre, suf = spec[:i], spec[i + 1:]
+                if Ellipsis in suf or len(actual) < len(pre) + len(suf):
+                    return False
+                mid_ok = True
+                return match(actual[:len(pre)], pre) and (not suf or match(actual[len(actual) - len(suf):], suf)) and mid_ok
+            if len(actual) != len(spec):
+                return False
+            for a, b in zip(actual, spec):
+                if isinstance(b, NEW):
+                    if not isinstance(a, Ref):
+                        return False
+                    continue
+                if not same(a, b):
+                    return False
+            return True
+
+        for case in cases:
+            when = case["when"]
+            if when is False:
+                continue
+            for path, items in case["set"].items():
+                lref = self.resolve_list_path(st, path, binds, result)
+                ok = lref is not None and match(tuple(st.obj(lref).get("items")), list(items))
+                self.oblige(st, f"{tag}lists.{case['label']}.{path}", "ensures", Implies(when, ok), node)
+
+    def check_linear(self, st: State, result: Any, node: Any, where: str, since: int = 0) -> None:
+        """every linear resource (a frame taken out of a flow) obtained on this path was returned or yielded"""
+        rr = result.val if isinstance(result, Opt) else result
+        for ev in st.events[since:]:
+            if ev[0] != "linear":
+                continue
+            _, isn, ref, key, line = ev
+            if isinstance(rr, Ref) and rr == ref:
+                continue
+            if any((o.val if isinstance(o, Opt) else o) == ref for o in st.out
+                   if isinstance(o.val if isinstance(o, Opt) else o, Ref)):
+                continue
+            self.oblige(st, f"{where}frame-from-{key.split('.')[-1]}@L{line}-is-handed-on", "ensures", isn, node)
 
     # ------------------------------------------------------------------- frame
     def _check_frame(self, c: Contract, fi: FuncInfo, st: State, binds: dict, old_heap: dict, modifies: list[str],
